@@ -633,25 +633,55 @@ func vC13CheckBlock(q *vC13Seq, classes map[string]bool) ([]byte, *vC13Err) {
 			var ats []int64
 			var get func(k int) interface{}
 			var alen int
+			// The destination is what a cursor hands in: usually the array that held the previous block, i.e. longer or
+			// shorter than this block and full of other values. Two cases out of three decode into such a dirty
+			// array (chosen from the case itself, so that a run stays a function of its seed).
+			dirty := (n+len(blk))%3 != 0
+			dn := 0
+			if dirty {
+				dn = n + 13
+				if (n+len(blk))%3 == 2 && n > 4 {
+					dn = n - 3
+				}
+			}
+			dts := make([]int64, dn)
+			for k := range dts {
+				dts[k] = int64(-7 - k)
+			}
 			switch q.kind {
 			case 'f':
-				a := &tsdb.FloatArray{}
+				a := &tsdb.FloatArray{Timestamps: dts, Values: make([]float64, dn)}
+				for k := range a.Values {
+					a.Values[k] = 12345.678
+				}
 				err = DecodeFloatArrayBlock(blk, a)
 				ats, alen, get = a.Timestamps, len(a.Values), func(k int) interface{} { return a.Values[k] }
 			case 'i':
-				a := &tsdb.IntegerArray{}
+				a := &tsdb.IntegerArray{Timestamps: dts, Values: make([]int64, dn)}
+				for k := range a.Values {
+					a.Values[k] = -99
+				}
 				err = DecodeIntegerArrayBlock(blk, a)
 				ats, alen, get = a.Timestamps, len(a.Values), func(k int) interface{} { return a.Values[k] }
 			case 'u':
-				a := &tsdb.UnsignedArray{}
+				a := &tsdb.UnsignedArray{Timestamps: dts, Values: make([]uint64, dn)}
+				for k := range a.Values {
+					a.Values[k] = 1<<63 + 5
+				}
 				err = DecodeUnsignedArrayBlock(blk, a)
 				ats, alen, get = a.Timestamps, len(a.Values), func(k int) interface{} { return a.Values[k] }
 			case 'b':
-				a := &tsdb.BooleanArray{}
+				a := &tsdb.BooleanArray{Timestamps: dts, Values: make([]bool, dn)}
+				for k := range a.Values {
+					a.Values[k] = true
+				}
 				err = DecodeBooleanArrayBlock(blk, a)
 				ats, alen, get = a.Timestamps, len(a.Values), func(k int) interface{} { return a.Values[k] }
 			case 's':
-				a := &tsdb.StringArray{}
+				a := &tsdb.StringArray{Timestamps: dts, Values: make([]string, dn)}
+				for k := range a.Values {
+					a.Values[k] = "stale"
+				}
 				err = DecodeStringArrayBlock(blk, a)
 				ats, alen, get = a.Timestamps, len(a.Values), func(k int) interface{} { return a.Values[k] }
 			}
